@@ -48,8 +48,15 @@ def observer_two_reports(I: Interp) -> List[Path]:
     """MatchedObserver().regex_matched(a); .regex_matched(b) -> the observer"""
     mo = I.p.find_class("MatchedObserver")
 
+    init = mo.find_method("__init__")
+    params = [a.arg for a in (init.node.args.args[1:] + init.node.args.kwonlyargs)] if init is not None else []
+
     def thunk(I: Interp) -> Value:
-        obs = I.construct(mo, [], {}, None, None)
+        # default construction, and (if the constructor takes options) construction with every option opaque:
+        # whatever the observer is configured with, a report is a report
+        opaque = bool(params) and I.run.assume(("observer-options", "opaque"), "observer constructed with opaque options")
+        kw = {n: Unknown(f"OBS_{n}", {"expr": f"OBS_{n}"}) for n in params} if opaque else {}
+        obs = I.construct(mo, [], kw, None, None)
         m = mo.find_method("regex_matched")
         if m is None:
             raise AnalysisError("anchor MatchedObserver.regex_matched not found")
@@ -61,6 +68,34 @@ def observer_two_reports(I: Interp) -> List[Path]:
     return I.explore(thunk)
 
 
+_RX_VALUE: Dict[int, Value] = {}
+
+
+def builder_regex_value(p) -> Value:
+    """the value MasterOfPuppets hands to CompleteConsumer as its rule: the regex string, or whatever the constructor
+    derives from it (e.g. a compiled pattern) -- read off an interpretation of MasterOfPuppets.__init__"""
+    if id(p) in _RX_VALUE:
+        return _RX_VALUE[id(p)]
+    from .matchflow import match_interp, match_scenarios
+    default: Value = Str((Hole("REGEX", "regex", True),))
+    val: Value = default
+    try:
+        Im = match_interp(p)
+        for s in match_scenarios(Im, file_types=("assembly",), return_modes=("bool",), search_modes=("first_find",),
+                                 only_addrs=(False,), configs=({},)):
+            for e in s.path.events:
+                if e.kind == "construct" and e.cls == "CompleteConsumer":
+                    v = e.kwargs.get("regex_rule", e.args[0] if e.args else None)
+                    if v is not None and "<REGEX>" in Im.expr_of(v):
+                        val = v
+                    break
+            break
+    except AnalysisError:
+        val = default
+    _RX_VALUE[id(p)] = val
+    return val
+
+
 def consumer_scenarios(I: Interp, feed: str = "two") -> List[Scenario]:
     """feed='two': exactly two instructions (order/completeness); feed='many': a listing of unknown length"""
     p = I.p
@@ -68,11 +103,12 @@ def consumer_scenarios(I: Interp, feed: str = "two") -> List[Scenario]:
     mo = p.find_class("MatchedObserver")
     mode_cls = p.find_class("MatchingSearchMode")
     out: List[Scenario] = []
+    rxv = builder_regex_value(p)
     for mode in ("first_find", "all_finds"):
         for only in (False, True):
             def thunk(I: Interp, mode=mode, only=only) -> Value:
                 obs = I.construct(mo, [], {}, None, None)
-                cons = I.construct(cc, [], {"regex_rule": Str((Hole("REGEX", "regex", True),)),
+                cons = I.construct(cc, [], {"regex_rule": rxv,
                                             "matched_observer": obs, "matching_mode": EnumV(mode_cls, mode),
                                             "return_only_address": TRUE if only else FALSE}, None, None)
                 I.run.user["obs"], I.run.user["cons"] = obs, cons
